@@ -153,15 +153,16 @@ def run(ctx):
         trs.append({"tid": tid, "seq": list(blocks), "ev": ev})
     # runs of 30..48 of a few residues with single residues between them, windows of 33..48 slid one residue at a time:
     # window compositions that differ by more than 30 in one count within one profile
-    for rep in range(ctx.pick(28, 120)):
+    for rep in range(ctx.pick(90, 400)):
         letters = ctx.rng.sample("LFEKGSQP", ctx.rng.randint(3, 4))
         parts = []
+        hi_ = ctx.rng.choice([40, 44, 48])
         for _ in range(ctx.rng.randint(3, 6)):
-            parts.append(ctx.rng.choice(letters) * ctx.rng.randint(30, 48))
-            if ctx.rng.random() < 0.5:
+            parts.append(ctx.rng.choice(letters) * ctx.rng.randint(31, hi_))
+            if ctx.rng.random() < 0.7:
                 parts.append(ctx.rng.choice(letters))
         blocks = "".join(parts)
-        e = event(ctx, lc, lc.SP(blocks), blocks, "WF", ctx.rng.choice([3, 4, 5, 8, 20]), None, ctx.rng.randint(33, 48), 1, 3, need)
+        e = event(ctx, lc, lc.SP(blocks), blocks, "WF", ctx.rng.choice([3, 4, 5, 8, 20]), None, ctx.rng.randint(33, hi_), 1, 3, need)
         if e:
             tid += 1
             trs.append({"tid": tid, "seq": list(blocks), "ev": [e]})
